@@ -228,11 +228,17 @@ def emit_file(path: str, cases: List[Case], oracles: Oracles) -> None:
 MISMATCH_RE = re.compile(r"MISMATCH (\d+)%nat MODEL\s+(.*?)(?=\nMISMATCH |\Z)", re.S)
 
 
+def _limit_memory() -> None:
+    import resource
+    cap = 16 * 1024 ** 3
+    resource.setrlimit(resource.RLIMIT_AS, (cap, cap))
+
+
 def run_coq_file(path: str, timeout: int = 600) -> Tuple[str, List[Tuple[int, str]], str]:
     """Compile one generated file; returns (status, mismatches, raw_output)."""
     cmd = ["coqc", "-Q", os.path.join(COQ, "theories"), "KV", "-Q", GEN, "KVGen", path]
     try:
-        p = subprocess.run(cmd, capture_output=True, text=True, timeout=timeout, cwd=COQ)
+        p = subprocess.run(cmd, capture_output=True, text=True, timeout=timeout, cwd=COQ, preexec_fn=_limit_memory)
     except subprocess.TimeoutExpired:
         return "timeout", [], ""
     out = p.stdout + p.stderr
